@@ -96,6 +96,22 @@ func (PoolsNeverLose) Check(t *explore.Transition) ([]V, bool) {
 				}
 			}
 		}
+		// the fee of this very transaction may have been converted through this pool before the
+		// liquidity change: the exact share rules below do not see the intermediate reserves, so the
+		// invariant "product of the reserves per squared pool-token supply never falls" is used instead
+		feeHere := false
+		if v, ok := tagOf(r, "tx.commission_conversion"); ok && v == "pool" && inf.OK && inf.GasCoin != 0 {
+			g := uint64(inf.GasCoin)
+			feeHere = (p.Coin0 == 0 && p.Coin1 == g) || (p.Coin1 == 0 && p.Coin0 == g)
+		}
+		if feeHere && sb.Cmp(sa) != 0 {
+			lhs := new(big.Int).Mul(kb, new(big.Int).Mul(sa, sa))
+			rhs := new(big.Int).Mul(ka, new(big.Int).Mul(sb, sb))
+			if lhs.Cmp(rhs) < 0 {
+				out = append(out, V{Signature: "product-per-share-fell|" + ty, Detail: fmt.Sprintf("tx %q (fee converted through the same pool): reserves %s/%s supply %s -> %s/%s supply %s", r.T.Name, r0a, r1a, sa, r0b, r1b, sb)})
+			}
+			continue
+		}
 		switch sb.Cmp(sa) {
 		case 0: // a trade (or a commission swap)
 			if kb.Cmp(ka) < 0 {
